@@ -372,3 +372,122 @@ Proof.
   - destruct (find_spec cn specs); [|discriminate]. destruct (copy_fields _ _ h fs _) as [[h1 fs']|]; [|discriminate]. inversion H; subst.
     cbn [resolve1]. rewrite nth_error_alloc, E. reflexivity.
 Qed.
+
+(** ** a whole object: every attribute of the copy observes the value of its source attribute *)
+Lemma cell_lt_mono n m c : n <= m -> cell_lt n c -> cell_lt m c.
+Proof. intros H Hc. unfold cell_lt in *. eapply Forall_impl; [|exact Hc]. intros v Hv. eapply hv_lt_mono; eauto. Qed.
+Lemma closed_snoc h c : closed h -> cell_lt (S (length h)) c -> closed (h ++ [c]).
+Proof.
+  intros Hc Hn. unfold closed. rewrite app_length. cbn [length]. rewrite Nat.add_1_r. apply Forall_app. split.
+  - eapply Forall_impl; [|exact Hc]. intros x Hx. eapply cell_lt_mono; [|exact Hx]. lia.
+  - constructor; [exact Hn | constructor].
+Qed.
+Lemma closed_cell h l c : closed h -> nth_error h l = Some c -> cell_lt (length h) c.
+Proof. intros Hc E. unfold closed in Hc. rewrite Forall_forall in Hc. exact (Hc _ (nth_error_In _ _ E)). Qed.
+
+Definition good_cp (cp : heap -> hv -> option (heap * hv)) : Prop :=
+  forall h v h' v', closed h -> cp h v = Some (h', v') -> closed h' /\ hv_lt (length h') v'.
+
+Lemma copy_kvs_good {K} (cp : heap -> hv -> option (heap * hv)) : good_cp cp -> extends cp ->
+  forall (l : list (K * hv)) h h' l', closed h -> copy_kvs cp h l = Some (h', l') -> closed h' /\ Forall (hv_lt (length h')) (map snd l').
+Proof.
+  intros Hg He l. induction l as [|[k v] t IH]; intros h h' l' Hc H; cbn in H.
+  - inversion H; subst. split; [exact Hc | constructor].
+  - destruct (cp h v) as [[h1 v1]|] eqn:E1; [|discriminate]. destruct (copy_kvs cp h1 t) as [[h2 t']|] eqn:E2; [|discriminate].
+    inversion H; subst. destruct (Hg _ _ _ _ Hc E1) as [Hc1 V1]. destruct (IH _ _ _ Hc1 E2) as [Hc2 V2].
+    destruct (copy_kvs_extends _ He _ _ _ _ E2) as [e2 ->].
+    split; [exact Hc2|]. cbn [map snd]. constructor; [|exact V2]. eapply hv_lt_mono; [|exact V1]. rewrite !app_length; lia.
+Qed.
+
+Lemma hattr_In_or_none k (fs : hobj) : hattr k fs = HNone \/ In (hattr k fs) (map snd fs).
+Proof. induction fs as [|[k' v] t IH]; [left; reflexivity|]. cbn [hattr map snd]. destruct (String.eqb k k'); [right; left; reflexivity | destruct IH; [left; assumption | right; right; assumption]]. Qed.
+
+Lemma copy_fields_good sh dp : good_cp sh -> good_cp dp -> extends sh -> extends dp ->
+  forall fields h src h' o', closed h -> Forall (hv_lt (length h)) (map snd src) -> copy_fields sh dp h src fields = Some (h', o') ->
+  closed h' /\ Forall (hv_lt (length h')) (map snd o').
+Proof.
+  intros Gs Gd Es Ed fields. induction fields as [|c t IH]; intros h src h' o' Hc Hsrc H; cbn [copy_fields] in H.
+  - inversion H; subst. split; [exact Hc | constructor].
+  - destruct (String.eqb (csrc c) ""); [eapply IH; eauto|].
+    assert (Hv : hv_lt (length h) (hattr (csrc c) src)).
+    { destruct (hattr_In_or_none (csrc c) src) as [->|Hin]; [exact I|]. rewrite Forall_forall in Hsrc. exact (Hsrc _ Hin). }
+    assert (Step : forall h1 v1, closed h1 -> hv_lt (length h1) v1 -> (exists e, h1 = h ++ e) ->
+                   match copy_fields sh dp h1 src t with
+                   | Some (h2, t') => Some (h2, (ctgt c, v1) :: t')
+                   | None => None end = Some (h', o') -> closed h' /\ Forall (hv_lt (length h')) (map snd o')).
+    { intros h1 v1 Hc1 V1 [e ->] H1. destruct (copy_fields sh dp (h ++ e) src t) as [[h2 t']|] eqn:E2; [|discriminate]. inversion H1; subst.
+      assert (Hsrc1 : Forall (hv_lt (length (h ++ e))) (map snd src)) by (eapply Forall_impl; [|exact Hsrc]; intros x Hx; eapply hv_lt_mono; [|exact Hx]; rewrite !app_length; lia).
+      destruct (IH _ _ _ _ Hc1 Hsrc1 E2) as [Hc2 V2]. destruct (copy_fields_extends _ _ Es Ed _ _ _ _ _ E2) as [e2 ->].
+      split; [exact Hc2|]. cbn [map snd]. constructor; [|exact V2]. eapply hv_lt_mono; [|exact V1]. rewrite !app_length; lia. }
+    destruct (cmode c).
+    + destruct (sh h (hattr (csrc c) src)) as [[h1 v1]|] eqn:E1; [|discriminate]. destruct (Gs _ _ _ _ Hc E1) as [Hc1 V1].
+      eapply Step; eauto.
+    + destruct (dp h (hattr (csrc c) src)) as [[h1 v1]|] eqn:E1; [|discriminate]. destruct (Gd _ _ _ _ Hc E1) as [Hc1 V1].
+      eapply Step; eauto.
+    + eapply (Step h (hattr (csrc c) src)); eauto. exists []. rewrite app_nil_r. reflexivity.
+Qed.
+
+Lemma copy_hv_good specs fuel : forall deep, good_cp (copy_hv specs fuel deep).
+Proof.
+  induction fuel as [|n IH]; intros deep h v h' v' Hc H; [discriminate|]. cbn [copy_hv] in H.
+  destruct v as [|x|l]; try (inversion H; subst; split; [exact Hc | exact I]).
+  destruct (nth_error h l) as [[x|d|t p|cn fs]|] eqn:E; try discriminate.
+  - inversion H; subst. split; [apply closed_snoc; [exact Hc | constructor] | cbn; rewrite !app_length; cbn; lia].
+  - pose proof (closed_cell _ _ _ Hc E) as Hd. unfold cell_lt in Hd. cbn [cell_vals] in Hd. destruct deep.
+    + destruct (copy_kvs (copy_hv specs n true) h d) as [[h1 d']|] eqn:E1; [|discriminate]. inversion H; subst.
+      destruct (copy_kvs_good _ (IH true) (copy_hv_extends specs n true) _ _ _ _ Hc E1) as [Hc1 V1].
+      split; [|cbn; rewrite !app_length; cbn; lia]. apply closed_snoc; [exact Hc1|]. unfold cell_lt. cbn [cell_vals].
+      eapply Forall_impl; [|exact V1]. intros y Hy. eapply hv_lt_mono; [|exact Hy]. lia.
+    + inversion H; subst. split; [|cbn; rewrite !app_length; cbn; lia]. apply closed_snoc; [exact Hc|]. unfold cell_lt. cbn [cell_vals].
+      eapply Forall_impl; [|exact Hd]. intros y Hy. eapply hv_lt_mono; [|exact Hy]. lia.
+  - inversion H; subst. split; [apply closed_snoc; [exact Hc | constructor] | cbn; rewrite !app_length; cbn; lia].
+  - pose proof (closed_cell _ _ _ Hc E) as Hd. unfold cell_lt in Hd. cbn [cell_vals] in Hd.
+    destruct (find_spec cn specs) as [s|]; [|discriminate].
+    destruct (copy_fields _ _ h fs _) as [[h1 fs']|] eqn:E1; [|discriminate]. inversion H; subst.
+    destruct (copy_fields_good _ _ (IH false) (IH true) (copy_hv_extends specs n false) (copy_hv_extends specs n true) _ _ _ _ _ Hc Hd E1) as [Hc1 V1].
+    split; [|cbn; rewrite !app_length; cbn; lia]. apply closed_snoc; [exact Hc1|]. unfold cell_lt. cbn [cell_vals].
+    eapply Forall_impl; [|exact V1]. intros y Hy. eapply hv_lt_mono; [|exact Hy]. lia.
+Qed.
+
+Lemma resolve1_ext h e v : closed h -> hv_lt (length h) v -> resolve1 (h ++ e) v = resolve1 h v.
+Proof. intros Hc Hv. apply (resolve1_below (length h)); [intros l Hl; apply nth_error_app_l; exact Hl | reflexivity | exact Hc | exact Hv]. Qed.
+
+(** __copy__ and __deepcopy__: attribute by attribute the copy observes what the source observes *)
+Theorem class_copy_equal specs fuel deep s h o h' o' :
+  closed h -> Forall (hv_lt (length h)) (map snd o) -> class_copy specs fuel deep s h o = Some (h', o') ->
+  Forall2 (fun c kv => fst kv = ctgt c /\ resolve1 h' (snd kv) = resolve1 h (hattr (csrc c) o))
+          (filter (fun c => negb (String.eqb (csrc c) "")) (if deep then dp_ctor s ++ dp_post s else cp_ctor s ++ cp_post s)) o'.
+Proof.
+  unfold class_copy. generalize (if deep then dp_ctor s ++ dp_post s else cp_ctor s ++ cp_post s) as fields. clear deep s.
+  intros fields Hc Ho. 
+  assert (G : forall fields hh hh' oo, closed hh -> (exists e, hh = h ++ e) ->
+              copy_fields (copy_hv specs fuel false) (copy_hv specs fuel true) hh o fields = Some (hh', oo) ->
+              Forall2 (fun c kv => fst kv = ctgt c /\ resolve1 hh' (snd kv) = resolve1 h (hattr (csrc c) o))
+                      (filter (fun c => negb (String.eqb (csrc c) "")) fields) oo).
+  { clear fields. induction fields as [|c t IH]; intros hh hh' oo Hch [e0 He0] H; cbn [copy_fields] in H.
+    - inversion H; subst. constructor.
+    - cbn [filter]. destruct (String.eqb (csrc c) "") eqn:Ec; cbn [negb]; [eapply IH; eauto|].
+      assert (Hv : hv_lt (length h) (hattr (csrc c) o)).
+      { destruct (hattr_In_or_none (csrc c) o) as [->|Hin]; [exact I|]. rewrite Forall_forall in Ho. exact (Ho _ Hin). }
+      assert (Esrc : resolve1 hh (hattr (csrc c) o) = resolve1 h (hattr (csrc c) o)) by (subst hh; apply resolve1_ext; assumption).
+      assert (Step : forall h1 v1, closed h1 -> hv_lt (length h1) v1 -> (exists e, h1 = hh ++ e) -> resolve1 h1 v1 = resolve1 h (hattr (csrc c) o) ->
+                     match copy_fields (copy_hv specs fuel false) (copy_hv specs fuel true) h1 o t with
+                     | Some (h2, t') => Some (h2, (ctgt c, v1) :: t') | None => None end = Some (hh', oo) ->
+                     Forall2 (fun c0 kv => fst kv = ctgt c0 /\ resolve1 hh' (snd kv) = resolve1 h (hattr (csrc c0) o))
+                             (c :: filter (fun c0 => negb (String.eqb (csrc c0) "")) t) oo).
+      { intros h1 v1 Hc1 V1 [e1 He1] R1 H1. destruct (copy_fields _ _ h1 o t) as [[h2 t']|] eqn:E2; [|discriminate]. inversion H1; subst h2 oo.
+        constructor.
+        - split; [reflexivity|]. cbn [snd].
+          destruct (copy_fields_extends _ _ (copy_hv_extends specs fuel false) (copy_hv_extends specs fuel true) _ _ _ _ _ E2) as [e2 ->].
+          rewrite resolve1_ext by assumption. exact R1.
+        - eapply IH; [exact Hc1 | | exact E2]. exists (e0 ++ e1). subst. rewrite app_assoc. reflexivity. }
+      destruct (cmode c).
+      + destruct (copy_hv specs fuel false hh (hattr (csrc c) o)) as [[h1 v1]|] eqn:E1; [|discriminate].
+        destruct (copy_hv_good specs fuel false _ _ _ _ Hch E1) as [Hc1 V1].
+        eapply Step; eauto; [eapply copy_hv_extends; eauto | rewrite (copy_hv_equal _ _ _ _ _ _ _ Hch E1); exact Esrc].
+      + destruct (copy_hv specs fuel true hh (hattr (csrc c) o)) as [[h1 v1]|] eqn:E1; [|discriminate].
+        destruct (copy_hv_good specs fuel true _ _ _ _ Hch E1) as [Hc1 V1].
+        eapply Step; eauto; [eapply copy_hv_extends; eauto | rewrite (copy_hv_equal _ _ _ _ _ _ _ Hch E1); exact Esrc].
+      + eapply (Step hh (hattr (csrc c) o)); eauto; [subst hh; eapply hv_lt_mono; [|exact Hv]; rewrite !app_length; lia | exists []; rewrite app_nil_r; reflexivity]. }
+  intro H. eapply G; [exact Hc | exists []; rewrite app_nil_r; reflexivity | exact H].
+Qed.
